@@ -299,9 +299,21 @@ class BuiltinCalls:
             I.do_raise(state, "TypeError", node, implicit=True, mro=TYPEERR)
             return Bottom()
         r = I.class_matches(state, args[0], args[1])
+        prov = frozenset()
+        sep = None
+        vprov = getattr(args[0], "prov", frozenset())
+        if I.type_test_tags and vprov & set(I.type_test_tags):
+            # does the tested class set tell validated numeric kinds (bool/int/float) apart?
+            matched = set()
+            for c in args[1].items if isinstance(args[1], TupleV) else (args[1],):
+                if isinstance(c, ClassV):
+                    matched |= {"builtin.int": {"int", "bool"}, "builtin.float": {"float"}, "builtin.bool": {"bool"}, "builtin.object": {"int", "bool", "float"}}.get(c.ext, set())
+            sep = bool(matched) and matched != {"int", "bool", "float"}
+            if sep:
+                prov = frozenset(I.type_test_tags[t] for t in vprov if t in I.type_test_tags)
         I.hook("isinstance", node, args[0], args[1], r)
-        I.event("isinstance", node, val=args[0], cls=args[1], result=r)
-        return Bool(r, frozenset())
+        I.event("isinstance", node, val=args[0], cls=args[1], result=r, separates=sep)
+        return Bool(r, prov)
 
     def b_issubclass(self, args, kwargs, node, state):
         return Bool(None)
